@@ -215,28 +215,60 @@ RULE = ("(1) direct calls LimitManager::new(max, check_every, reset_seconds) + r
         "port still accepts at the end are compared with the model of the accept loop, with the reference server that never stops accepting "
         "(Coq) and with the Python reference. Floods: an address at the drop level makes 1, 3*max+2, 99, 100, 101, 150, 300, 700 (thorough: also "
         "102, 200, 201, 202, 400, 1000, 2500) connections in a row (all dropped at accept), then 127.0.0.2 must be accepted and answered 200, and after "
-        "the reset interval (3 s, real time) the flooder itself is served again. distinct_nontrivial counts "
-        "inputs whose outcome contains at least one Send/Drop decision or one 429/cut/refused connection")
+        "the reset interval (3 s, real time) the flooder itself is served again. A connection on which the server neither answers nor "
+        "closes (seen three times in a row, waiting 8, 12 and 20 s), or a final probe connection that gets no reaction, is an outcome "
+        "(marker 4) that no model or specification produces: a VIOLATION with the history as replay; what the harness itself could not do "
+        "(no port, server never up, schedule missed) is reported as harness trouble, retried by the runner and counted as not executed "
+        "(more than MAX_NOT_EXECUTED fail the run). Ports are reserved in the ephemeral range by a bound SO_REUSEPORT socket held for the "
+        "life of the server. "
+        "(2b) events (limiter.server_ev): between the connections accept() is made to fail n times on the real listener (RLIMIT_NOFILE is "
+        "lowered to 0 after the client socket exists; the hook points al.top / al.got of the accept loop count the failed iterations and "
+        "give the descriptors back at the n-th) for n = 1, 2, 50, 99, 100 (served), 100+100+100 separated by accepted connections — also "
+        "by connections the limiter drops —, 101, 102, 150 (the listener ends, everybody after is refused), and shutdown() is called in "
+        "the middle (refused afterwards); random mixes. "
+        "(2c) hosts (limiter.hosts): collections of 1-4 hosts, each with its own LimitManager, requests naming any of them or a name no "
+        "host has (409 and close), with accept errors and shutdown. "
+        "(2d) concurrent clients (limiter.server_par): 127.0.0.1 floods over 2-16 connections at a time while 1-5 bystanders whose calls "
+        "all stay within every maximum connect at the same moment: each must be answered 200 every time. "
+        "(3) concurrent register: 2-8 OS threads call register on one manager (limiter.conc: check_every 0/1 or disabled, no reset in "
+        "the run: the per-address histogram of verdicts must be the ladder on the number of calls under every interleaving, compared "
+        "with the small-step model run under a generated schedule and with its specification; limiter.concbound: any check_every and "
+        "reset time incl. 1 ms: no panic, no verdict above the ladder on the calls of the address begun so far); limiter.concseq: the "
+        "small-step model on one thread against the real register call by call. Addresses include IPv6 neighbours (same /64, /56, /48), "
+        "::ffff:127.0.0.1 next to 127.0.0.1 and ::1. distinct_nontrivial counts "
+        "inputs whose outcome contains at least one Send/Drop decision or one 429/409/cut/refused connection, and every concurrent case")
 ASSUMPTIONS = [
-    "sequential histories: the calls to register (and to the &mut self setters) are totally ordered (the code uses Relaxed/Release atomics "
-    "and a concurrent map; concurrent interleavings of register are outside the model, as the property's last sentence says)",
-    "one clock reading per call: register reads SystemTime::now() for the comparison and once more in update_time; the model uses the "
-    "same reading for both. reset_seconds is compared in f64 seconds by the code and in integer clock units by the model (rounding of "
-    "as_secs_f64 is not modelled; the correspondence keeps 0.3 s margins, 1.4 s on the real server)",
-    "usize is 64 bit. The theorems about decisions assume histories of at most (2^64-1)/3 calls (hypothesis `fits`): below that bound "
-    "neither `*count += 1` nor `max_requests * 3` can overflow whatever the configuration (proved, register_never_panics); beyond it "
-    "`max_requests * 3` wraps (release) or panics (debug) when max_requests > usize::MAX/3 and a count exceeds it",
-    "availability: one host per collection (the host limiter consulted per request is that host's); the hosts of a built collection are "
-    "immutable, so the server's two configurations are fixed while it runs (configuration changes in the middle of a history are exercised "
-    "on the manager directly). Every listener (IPv4/IPv6, TCP/QUIC) runs its own instance of the modelled loop with its own failure "
-    "counter; calls of the other instances on the shared limiters are events (`Other`) of the model. Accept errors, QUIC time-outs and "
-    "shutdown requests are events of the model and of the theorems but cannot be provoked on a loopback socket and are not part of the "
-    "differential run",
+    "sequential theorems: the calls to register (and to the &mut self setters) are totally ordered. Concurrent calls are covered by the "
+    "small-step model (Model/LimiterConc.v): one transition per access to shared memory (fetch_add / store on `iteration`, the two "
+    "halves of the window start, DashMap::clear shard by shard, the entry update atomic per key), sequentially consistent — the code "
+    "uses Relaxed/Release atomics on independent cells whose values only steer sampling and window resets, and a lock per shard; "
+    "weak-memory reorderings between those cells are not modelled",
+    "one clock reading per call in the sequential model: register reads SystemTime::now() for the comparison and once more in update_time; "
+    "the model uses the same reading for both (the small-step model gives every access its own reading, any value, so a clock that steps "
+    "back is covered there and by the truncated subtraction of the sequential model; it cannot be provoked on the real code without "
+    "setting the system clock). reset_seconds is compared in f64 seconds by the code and in integer clock units by the model (rounding "
+    "of as_secs_f64 is not modelled; the correspondence keeps 0.3 s margins, 1.4 s on the real server)",
+    "usize is 64 bit. The theorems about decisions assume histories of at most (2^64-1)/3 calls (hypothesis `fits`; for the concurrent "
+    "model: accesses): below that bound neither `*count += 1`, `fetch_add(1) + 1` nor `max_requests * 3` can overflow whatever the "
+    "configuration (proved); beyond it `max_requests * 3` wraps (release) or panics (debug) when max_requests > usize::MAX/3",
+    "availability: the hosts of a built collection are immutable, so the server's configurations are fixed while it runs (configuration "
+    "changes in the middle of a history are exercised on the manager directly). Every listener (IPv4/IPv6, TCP/QUIC) runs its own "
+    "instance of the modelled loop with its own failure counter; calls of the other instances on the shared limiters are events "
+    "(`Other`) of the model. The server theorems serialise the accept loop and its connection tasks (sequential clients); concurrent "
+    "clients are run against the consequence of the concurrent theorems only (bystanders within every maximum are always served). "
+    "QUIC time-outs and `Other` events are events of the model and of the theorems but not of the differential run; HTTP/2 and TLS "
+    "connections are not run (the limiter branch of handle_connection is the same code for every protocol; `Drop => return` then ends "
+    "all streams of the connection)",
+    "accept errors are provoked as EMFILE; the loop treats every io::Error of accept() alike (no inspection of the kind for TCP)",
 ]
-TRUSTED = ["modelled: src/limiting.rs LimitManager::{new, default, set_max_requests, set_check_every, set_reset_seconds, disable, register}; "
+TRUSTED = ["modelled: src/limiting.rs LimitManager::{new, default, set_max_requests, set_check_every, set_reset_seconds, disable, register} "
+           "(register also access by access for concurrent callers); "
            "src/lib.rs accept (every arm of the loop: shutdown, TCP/QUIC accept errors with fails_without_accepting and its threshold, QUIC "
-           "time-out, reset of the counter, pre-host limiter, continue/return) and handle_connection (limiter branch of the request loop); "
-           "src/host.rs Host::limiter (Default), CollectionBuilder::{insert, set_pre_host_limiter} (shared / separate pre-host limiter)"]
+           "time-out, reset of the counter, pre-host limiter, continue/return) and handle_connection (host lookup with the 409 arm, limiter "
+           "branch of the request loop); src/host.rs Host::limiter (Default), CollectionBuilder::{insert, set_pre_host_limiter} (shared / "
+           "separate pre-host limiter, one manager per host)",
+           "the hook points al.top / al.got of the accept loop (cargo feature verif-hooks, add-only) are used to count failed iterations; "
+           "RLIMIT_NOFILE of the harness process is lowered and restored around them"]
 EXHAUSTIVE = False
 R_SRV = 3000                # ms: reset time crossed by real-server runs
 SRV_WAIT = R_SRV + 1500     # nominal wait that crosses it (the harness is never early and at most 1.4 s late)
@@ -444,6 +476,11 @@ def gen_ops(rng, quick):
             else:
                 ops.append(("disable",))
         cases += opcase(ctor, ops, "ops-random", (rng.choice(PROFILES),))
+    # ---- the 10 s of Default / Host::limiter in real time (thorough only: 10.6 s) ------------------------------------------
+    if not quick:
+        for ctor in (("default",), ("host",)):
+            cases += opcase(ctor, [("every", 1), ("max", 0), ("reg", 1, 0), ("reg", 1, 9000), ("reg", 2, 0), ("reg", 1, 1600), ("reg", 1, 0),
+                                   ("reg", 2, 0)], "ops-default-reset", ("dev",))
     # ---- reset time changed, in real time ---------------------------------------------------------------
     for i in range(6 if quick else 40):
         mx = rng.choice([0, 1, 2])
@@ -605,6 +642,34 @@ def py_hosts(host, extra, pre, evs):
     return out
 
 
+def gen_par(rng, quick):
+    """Concurrent clients on a real server: a flood over several connections at a time from 127.0.0.1 while bystanders whose
+    calls (accept + requests) all stay within every maximum connect at the same moment: each must get 200 every time."""
+    cases = []
+    for i in range(8 if quick else 60):
+        mx = rng.choice([2, 4, 6, 12, 30])
+        ce = rng.choice([1, 1, 2, 3])
+        reset = rng.choice([HOUR, "inf", 0, HOUR])
+        pre = rng.choice([None, None, ("own", rng.choice([2, 3, 8]), 1, HOUR), ("clone", rng.choice([2, 5]), rng.choice([1, 2]), HOUR)])
+        limit = min([mx] + ([pre[1]] if pre else []))
+        by = []
+        for _ in range(rng.randrange(1, 6)):
+            nreq = rng.randrange(1, max(2, limit))
+            nconn = max(1, limit // (1 + nreq)) if (1 + nreq) <= limit else 0
+            if nconn:
+                by.append((rng.randrange(1, nconn + 1), nreq))
+        if not by:
+            by = [(1, 1)]
+        # (every answered request costs the client ~40 ms of delayed ACK: the flood of one task stays below ~60 answers in quick)
+        flood = (rng.choice([10, 20, 30] if quick else [30, 100, 300]), rng.choice([1, 1, 2]), rng.choice([2, 4, 8, 16]))
+        prof = PROFILES[i % 2]
+        xp = xl() if pre is None else xl(xn(0 if pre[0] == "own" else 1), cfg(pre[1], pre[2], pre[3]))
+        sconf = xl(xn(i % 2), cfg(mx, ce, reset), xp, xn(rng.randrange(3)))
+        x = xl(xbool(prof == "dev"), sconf, xl(xn(flood[0]), xn(flood[1]), xn(flood[2])), xlist([xl(xn(c), xn(r)) for c, r in by]))
+        cases.append(Case("limiter.server_par", x, "limiter.server_par", {"kind": "server-concurrent", "by": by}, prof))
+    return cases
+
+
 def gen_events(rng, quick):
     """Accept errors (EMFILE on the real listener, counted by the hook points of the accept loop) and shutdown requests
     between the connections: every constant of the error arm (threshold 100, reset of the failure counter by an accepted
@@ -743,6 +808,7 @@ def generate(rng, tier):
     # ---- the real-server runs that wait for the reset interval first: they spread over the shards -------
     cases += gen_server(rng, quick)
     cases += gen_events(rng, quick)
+    cases += gen_par(rng, quick)
     cases += gen_hosts(rng, quick)
     cases += gen_conc(rng, quick)
     cases += gen_neighbours(rng, quick)
@@ -947,6 +1013,12 @@ def extra_oracle(c, i):
             return ("concurrent calls: (answers harsher than the ladder on the address's own calls begun so far, panics, calls) must be "
                     "(0, 0, %d)" % total)
         return None
+    if c.comp == "limiter.server_par" and "by" in c.meta:
+        want = "(L (L" + "".join(" (L" + (" (L (N 0) (L" + " (N 200)" * r + ") (N 0))") * n + ")" for n, r in c.meta["by"]) + ") (N 1))"
+        if i != want:
+            return ("while 127.0.0.1 floods over parallel connections, every bystander whose calls all stay within every maximum must be "
+                    "served 200 each time and the port must accept at the end; got %s" % i[:600])
+        return None
     if c.comp == "limiter.hosts" and "hevs" in c.meta:
         try:
             got, alive = _parse_server(i)
@@ -1064,14 +1136,26 @@ LEVEL_TEXT = ("Machine-checked Coq theorems over a transcription of LimitManager
               "starts a new window and is not counted; the others are counted per address and answered by the ladder <= max / <= 3*max / "
               "beyond of the current max); setters never touch the counters and every order of them from every constructor gives the limiter "
               "of new(..); an address whose counted requests stay <= the current max always passes whatever others do; a due call after the "
-              "reset time leaves exactly the state of a new limiter; a disabled limiter never limits until re-enabled; the state of the accept "
-              "loop (running / returned / failed) after every event list is a function of the kinds of the accept events alone (shutdown "
-              "request, more than 100 consecutive accept errors) - no address, request count, verdict or configuration occurs in it - so the "
-              "loop is alive after every event list without those, nobody is refused, and it ends in no other way. The model is tied to the "
-              "repository on every run by a differential run of the real LimitManager and of a real server on a loopback port.")
+              "reset time leaves exactly the state of a new limiter; a disabled limiter never limits until re-enabled. Server: for EVERY list "
+              "of accept events (connections with their requests, failed accept() calls, QUIC time-outs, shutdown requests, calls of other "
+              "tasks on the shared limiters) what every connection receives and how the loop ends equal the reference server: answers come "
+              "from the reference counter(s) alone until a shutdown request or the 101st consecutive accept error, everybody is refused "
+              "afterwards, and the loop ends in no other way - no address, request count, verdict or configuration occurs in that; the same "
+              "for collections of several hosts (one counter set per host, the pre-host limiter sharing the first host's) with requests for "
+              "unknown hosts (409, closed, no limiter asked). Concurrent calls (small-step model, one transition per access to shared memory, "
+              "any number of threads, EVERY interleaving, any clock readings): no call panics; a call of an address is never answered more "
+              "harshly than the ladder on that address's own calls returned so far, so an address whose calls are at most max is never limited "
+              "whatever others do concurrently; when every call is counted (check_every <= 1) and no reset occurs the k-th returned call of an "
+              "address gets exactly ladder(max, k) and the execution is linearisable to the sequential reference counter; a disabled limiter "
+              "touches nothing; on one thread the small-step model equals the sequential model. The models are tied to the repository on every "
+              "run by a differential run of the real LimitManager (single- and multi-threaded) and of real servers on loopback ports (accept "
+              "errors provoked on the real listener, shutdown, several hosts, concurrent clients).")
 LEVEL_NOTE = ("Trusted: Coq kernel, extraction (ExtrOcamlBasic) reduced by an in-kernel recheck sample, the hand transcription of "
-              "src/limiting.rs and of the accept loop / limiter branches of src/lib.rs as validated by the differential run (an independent "
-              "Python reference checks the same outputs without the model). Concurrent calls of register and f64 rounding of reset_seconds "
-              "are outside the model. No axioms.")
-TECHNIQUE = "Coq proof (refinement of the reference counter for all histories incl. configuration changes, exact characterisation of the accept loop's exit) + differential correspondence model vs. implementation (direct calls and a real loopback server) + model-independent oracles"
+              "src/limiting.rs and of the accept loop / host lookup / limiter branches of src/lib.rs as validated by the differential run (an "
+              "independent Python reference checks the same outputs without the model). Not proved: for check_every >= 2 or with resets "
+              "concurrent executions are not linearisable (witness ex_sampling_race) - only the per-address upper bound holds there; the "
+              "accept loop running concurrently with its connection tasks is serialised in the server theorems; weak-memory effects, f64 "
+              "rounding of reset_seconds, HTTP/2 / TLS connections and a wall clock stepping back on the real code are outside the "
+              "differential run. No axioms.")
+TECHNIQUE = "Coq proof (refinement of the reference counter for all histories incl. configuration changes, all accept-event lists and several hosts; invariants over every interleaving of a small-step concurrent model) + differential correspondence model vs. implementation (direct calls on 1-8 threads, real loopback servers with provoked accept errors) + model-independent oracles"
 KERNEL_SAMPLE = 30
